@@ -13,12 +13,12 @@ import (
 
 // Args is the argument struct "A" every generated component takes.
 type Args struct {
-	S  [4]string         `json:"s"`
-	B  [4]bool           `json:"b"`
-	N  int               `json:"n"`
-	K  int               `json:"k"`
-	L  []string          `json:"l"`
-	At map[string]any    `json:"at"` // spread attributes: string or bool values
+	S  [4]string      `json:"s"`
+	B  [4]bool        `json:"b"`
+	N  int            `json:"n"`
+	K  int            `json:"k"`
+	L  []string       `json:"l"`
+	At map[string]any `json:"at"` // spread attributes: string or bool values
 }
 
 // Env is the evaluation environment of the reference interpreter.
@@ -105,10 +105,11 @@ const (
 	KHTMLComment
 	KGoComment
 	KDoctype
-	KRaw // <style> / <script> with static content
+	KRaw        // <style> / <script> with static content
+	KScriptCall // @scriptTemplate(arg) rendered as a component
 )
 
-var kindNames = [...]string{"text", "element", "stringexpr", "if", "for", "switch", "call", "children", "gocode", "htmlcomment", "gocomment", "doctype", "rawelement"}
+var kindNames = [...]string{"text", "element", "stringexpr", "if", "for", "switch", "call", "children", "gocode", "htmlcomment", "gocomment", "doctype", "rawelement", "scriptcall"}
 
 func (k Kind) String() string { return kindNames[k] }
 
@@ -124,15 +125,29 @@ const (
 	ACond
 	AClass
 	AHref
+	AOnEvent // on*={ scriptTemplate(arg) }
 )
 
-var attrKindNames = [...]string{"constant", "boolconstant", "boolexpr", "expression", "spread", "conditional", "class", "href"}
+var attrKindNames = [...]string{"constant", "boolconstant", "boolexpr", "expression", "spread", "conditional", "class", "href", "onevent"}
 
 func (k AttrKind) String() string { return attrKindNames[k] }
 
 type ClassPart struct {
-	Lit  string // literal class name (always non-empty)
-	Cond *BExpr // nil: plain string; else templ.KV(lit, cond)
+	Lit  string       // literal class name (always non-empty)
+	Cond *BExpr       // nil: plain string; else templ.KV(lit, cond)
+	CSS  *CSSTemplate // a css component: cssName()
+}
+
+// ScriptTemplate is a file-level `script name(x string) { body }`.
+type ScriptTemplate struct {
+	Name string
+	Body string // JavaScript using the parameter x
+}
+
+// CSSTemplate is a file-level `css name() { prop: value; ... }` with constant properties.
+type CSSTemplate struct {
+	Name  string
+	Props [][2]string
 }
 
 type Attr struct {
@@ -222,8 +237,10 @@ type Component struct {
 type Program struct {
 	Name   string
 	Comps  []*Component // Comps[0] is the entry point
-	Label  string       // fixed cells: what the cell is
-	GoFunc bool         // emit a Go helper function between templates
+	Script *ScriptTemplate
+	CSS    *CSSTemplate
+	Label  string // fixed cells: what the cell is
+	GoFunc bool   // emit a Go helper function between templates
 	CRLF   bool
 	nextID int
 }
